@@ -18,7 +18,8 @@
 (* graph observed after the real designed_network().                                                           *)
 EXTENDS GnpyBase
 
-Tol == 3                                   \* micro-dB: "equal" for dB quantities (float noise is ~1e-9 micro-dB)
+Tol == 10          \* micro-dB: "equal" for dB quantities.  Measured on the unchanged tree: float noise < 1e-6 micro-dB,
+                   \* export rounding (gains are written with 6 decimals) 1 micro-dB; a real defect moves >= 1000 micro-dB
 
 Nodes(G)   == 1..Len(G)
 IsTerm(e)  == e.type \in {"Roadm", "Transceiver"}
